@@ -35,6 +35,8 @@ def reward_fn_of(task):
 def budget_of(task):
     if task["mode"] == "dev":
         return "*", task["k"]
+    if task.get("query_k") is not None:
+        return RNG_KINDS | {"query"}, task["query_k"]
     if task.get("rng_k") is not None:
         return RNG_KINDS, task["rng_k"]
     return None, None
